@@ -9,7 +9,7 @@
 (* Transcribed from bitcoin.sipa.be/miniscript and the reference           *)
 (* implementation's ComputeType, independently of rust-miniscript.         *)
 (***************************************************************************)
-EXTENDS Script
+EXTENDS Script, KeyOrder
 
 (***************************************************************************)
 (* ASTs: uniform records [f, n, ks, xs]                                    *)
@@ -26,6 +26,14 @@ Tern(f, x, y, z) == Ast(f, 0, <<>>, <<x, y, z>>)
 Thresh(k, xs)   == Ast("thresh", k, <<>>, xs)
 Multi(k, ks)    == Ast("multi", k, ks, <<>>)
 MultiA(k, ks)   == Ast("multi_a", k, ks, <<>>)
+
+\* sortedmulti / sortedmulti_a are multi / multi_a over the same keys in BIP67 order (by
+\* compressed resp. x-only serialisation); every L1 operator reads them through Unsorted
+SortedFrags == {"sortedmulti", "sortedmulti_a"}
+RankIn(order, k) == CHOOSE p \in 1..Len(order) : order[p] = k
+SortKeys(ks, order) == SortSeq(ks, LAMBDA a, c : RankIn(order, a) < RankIn(order, c))
+Unsorted(m) == IF m.f = "sortedmulti" THEN Multi(m.n, SortKeys(m.ks, OrderC))
+               ELSE MultiA(m.n, SortKeys(m.ks, OrderX))
 
 HashFrags == {"sha256", "hash256", "ripemd160", "hash160"}
 Wrappers  == {"a", "s", "c", "d", "v", "j", "n"}
@@ -83,6 +91,7 @@ Encode(m, ctx) ==
     [] f = "andor" -> Encode(X, ctx) \o <<Op("NOTIF")>> \o Encode(Z, ctx) \o <<Op("ELSE")>>
                       \o Encode(Y, ctx) \o <<Op("ENDIF")>>
     [] f = "thresh" -> Encode(X, ctx) \o EncodeAdds(m.xs, 2, ctx) \o <<PushNum(m.n), Op("EQUAL")>>
+    [] f \in SortedFrags -> Encode(Unsorted(m), ctx)
     [] f = "multi" -> <<PushNum(m.n)>> \o [i \in 1..Len(m.ks) |-> Push(Key(m.ks[i], kf))]
                       \o <<PushNum(Len(m.ks)), Op("CHECKMULTISIG")>>
     [] f = "multi_a" ->
@@ -245,7 +254,8 @@ FragAllowed(f, ctx) ==
 RECURSIVE TypeOfG(_, _, _)
 TypeOfG(m, ctx, tctx) ==
   LET f == m.f IN
-  IF ~FragAllowed(f, ctx) THEN BadType
+  IF f \in SortedFrags THEN TypeOfG(Unsorted(m), ctx, tctx)
+  ELSE IF ~FragAllowed(f, ctx) THEN BadType
   ELSE IF f \in {"multi", "multi_a"} THEN
     IF m.n >= 1 /\ m.n <= Len(m.ks) THEN SpecLeafType(f, tctx) ELSE BadType
   ELSE IF Len(m.xs) = 0 THEN SpecLeafType(f, tctx)
@@ -341,6 +351,7 @@ SD(m, w, ctx) ==
          LET P == ThreshProd(m.xs, 1, w, ctx) IN
          [s |-> {p.st : p \in {q \in P : q.c = m.n}},
           d |-> {p.st : p \in {q \in P : q.c # m.n}}]
+    [] f \in SortedFrags -> SD(Unsorted(m), w, ctx)
     [] f = "multi" ->
          [s |-> {<<E0>> \o r : r \in MultiSats(m.ks, 1, m.n, w)},
           d |-> {[i \in 1..(m.n + 1) |-> E0]}]
